@@ -7,6 +7,7 @@
 From Coq Require Import NArith Bool List Lia FMapPositive.
 From RS.Gen Require Import Prelude GenConsts.
 From RS.Model Require Import Field Tables Sched Codec Layout Machine.
+From RS.Proofs Require Import Junk Hist.
 Import ListNotations.
 Local Open Scope N_scope.
 
@@ -46,6 +47,49 @@ Theorem C05_drop_forgets : forall x y,
   dw_received (d_work (dec_after_round y)) = pempty /\ dw_mem (d_work (dec_after_round y)) = mempty.
 Proof. intros. cbn. repeat split. Qed.
 Print Assumptions C05_drop_forgets.
+
+(* ---- the unbounded theorems ---- *)
+(* (1) stale memory: along ANY sequence of streaming-API calls from any state satisfying the
+   machine invariant (every reachable state does: step_Inv), every result is the same for any
+   two contents of the working memory that was not written in the current round *)
+Theorem C05_stale_memory : forall junk1 junk2 ops, forallb (fun o => negb (uses_oneshot o)) ops = true ->
+  forall s, Inv s -> run junk1 s ops = run junk2 s ops.
+Proof. exact run_junk. Qed.
+Print Assumptions C05_stale_memory.
+
+Theorem C05_invariant : Inv init /\ forall junk s o, Inv s -> Inv (fst (step junk s o)).
+Proof. split; [exact Inv_init|exact step_Inv]. Qed.
+Print Assumptions C05_invariant.
+
+(* (2) history: two states that hold the same objects up to the capacity they own - whatever
+   their histories, epochs and stashed work spaces - give the same results for every
+   continuation, under any two stale memories *)
+Theorem C05_same_objects_same_future : forall junk1 junk2 ops, forallb (fun o => negb (uses_oneshot o)) ops = true ->
+  forall s t, sim s t -> Inv s -> Inv t -> snd (run junk1 s ops) = snd (run junk2 t ops).
+Proof. exact run_sim. Qed.
+Print Assumptions C05_same_objects_same_future.
+
+(* (3) a successfully reset encoder/decoder IS the freshly constructed one (up to capacity),
+   and a codec built on recycled working space is the one built on none *)
+Theorem C05_reset_is_fresh_enc : forall junk s t x K R sb, s_enc s = Some x -> opt_rel dec_eq (s_dec s) (s_dec t) ->
+  snd (step junk s (EReset K R sb)) = ROkUnit ->
+  sim (fst (step junk s (EReset K R sb))) (fst (step junk t (ENew (e_codec x) (e_engine x) K R sb))) /\
+  snd (step junk t (ENew (e_codec x) (e_engine x) K R sb)) = ROkUnit.
+Proof. exact reset_like_new_enc. Qed.
+Print Assumptions C05_reset_is_fresh_enc.
+
+Theorem C05_reset_is_fresh_dec : forall junk s t x K R sb, s_dec s = Some x -> opt_rel enc_eq (s_enc s) (s_enc t) ->
+  snd (step junk s (DReset K R sb)) = ROkUnit ->
+  sim (fst (step junk s (DReset K R sb))) (fst (step junk t (DNew (d_codec x) (d_engine x) K R sb))) /\
+  snd (step junk t (DNew (d_codec x) (d_engine x) K R sb)) = ROkUnit.
+Proof. exact reset_like_new_dec. Qed.
+Print Assumptions C05_reset_is_fresh_dec.
+
+Theorem C05_recycled_work_is_fresh : forall junk s c e K R sb,
+  snd (step junk s (ENewW c e K R sb)) = snd (step junk s (ENew c e K R sb)) /\
+  opt_rel enc_eq (s_enc (fst (step junk s (ENewW c e K R sb)))) (s_enc (fst (step junk s (ENew c e K R sb)))).
+Proof. exact neww_like_new_enc. Qed.
+Print Assumptions C05_recycled_work_is_fresh.
 
 (* instances: same round after two different histories and under two different stale
    memories gives the same results *)
